@@ -230,6 +230,20 @@ theorem source_integer_is_x690 (z : Int) :
     GenK.toBytes z true 0 = .ok (Kernels.bytesInts (X690.intOctets z)) := by
   rw [Kernels.toBytes_kernel, integer_is_x690]
 
+/-- `IntegerEncoder.encodeValue` of ber/encoder.py as it is in the source (zero written as one `00` octet unless the encoder
+    class asks for the compact form - none of the three codecs does -, everything else handed to the translated `to_bytes`):
+    the contents of every INTEGER / ENUMERATED are the X.690 8.3 octets, in primitive form -/
+theorem source_integer_encoder_is_x690 (z : Int) :
+    ∃ isOctets, GenK.intEncode false z = .ok (Kernels.bytesInts (X690.intOctets z), false, isOctets) := by
+  unfold GenK.intEncode
+  by_cases h : z = 0
+  · subst h
+    refine ⟨false, ?_⟩
+    have : X690.intOctets 0 = [0] := by rw [← integer_is_x690]; decide +kernel
+    simp [this, pure, Except.pure, Kernels.bytesInts]
+  · refine ⟨true, ?_⟩
+    simp only [h, decide_false, Bool.false_eq_true, if_false, bind, Except.bind, source_integer_is_x690, pure, Except.pure]
+
 /-- OBJECT IDENTIFIER contents written by the source = X.690 8.19, with the same refusals -/
 theorem source_oid_is_x690 (arcs : List Nat) :
     GenK.oidEncode (Kernels.ints arcs) = Kernels.liftOid (X690.oidOctets arcs) := by
